@@ -316,7 +316,7 @@ func describeExpr(f *FuncInfo, e ast.Expr, depth int) string {
 				return "field:" + o.Name()
 			}
 			if i := paramIndex(f, o); i >= 0 {
-				return "param#" + itoa(i)
+				return describeParam(f, o, i, depth)
 			}
 			if isLitParam(f, o) {
 				return "litparam"
@@ -366,6 +366,14 @@ func describeExpr(f *FuncInfo, e ast.Expr, depth int) string {
 				}
 			}
 			if len(defs) == 1 {
+				if describeUsePos.IsValid() && defs[0].pos <= describeUsePos {
+					// the operands of the definition are read where it stands, not at the use
+					old := describeUsePos
+					describeUsePos = defs[0].start
+					r := defs[0].describe(f, depth+1)
+					describeUsePos = old
+					return r
+				}
 				return defs[0].describe(f, depth+1)
 			}
 			if len(defs) == 0 {
@@ -720,4 +728,71 @@ func constantInt64(v constant.Value) (int64, bool) {
 		return 0, false
 	}
 	return constant.Int64Val(v)
+}
+
+// describeParam: a parameter is `param#i` unless the function reassigns it: then the description is the set of the
+// parameter and the reassigned values that can reach the use (position-sensitive mode), or of all of them.
+func describeParam(f *FuncInfo, o *types.Var, i int, depth int) string {
+	base := "param#" + itoa(i)
+	if depth > 3 {
+		return base
+	}
+	defs := defsOfVarWithIndex(f, o)
+	var live []varDef
+	for _, d := range defs {
+		if d.rhs != nil || d.stmt != nil {
+			live = append(live, d)
+		}
+	}
+	if len(live) == 0 {
+		return base
+	}
+	includeParam := true
+	cands := live
+	if describeUsePos.IsValid() {
+		var before []varDef
+		for _, d := range live {
+			if d.pos <= describeUsePos {
+				before = append(before, d)
+			}
+		}
+		if len(before) == 0 {
+			return base
+		}
+		sort.Slice(before, func(a, b int) bool { return before[a].pos > before[b].pos })
+		cands = nil
+		for _, d := range before {
+			cands = append(cands, d)
+			blk := f.scopeBlockOf(d.stmt)
+			if blk == nil || encloses(blk, describeUsePos) {
+				if d.start > describeUsePos || !encloses(d.stmt, describeUsePos) {
+					includeParam = false
+				}
+				break
+			}
+		}
+	}
+	parts := []string{}
+	seen := map[string]bool{}
+	if includeParam {
+		parts = append(parts, base)
+		seen[base] = true
+	}
+	for _, d := range cands {
+		old := describeUsePos
+		if describeUsePos.IsValid() {
+			describeUsePos = d.start
+		}
+		str := d.describe(f, depth+1)
+		describeUsePos = old
+		if !seen[str] {
+			seen[str] = true
+			parts = append(parts, str)
+		}
+	}
+	if len(parts) == 1 {
+		return parts[0]
+	}
+	sort.Strings(parts)
+	return "{" + strings.Join(parts, "|") + "}"
 }
